@@ -97,6 +97,10 @@ def rule_process(ctx):
                 interp_.event("close", path, behaviour)
                 if behaviour == "rejected-at-end":
                     interp_.raise_("cutplace.errors.CheckError", Opaque("str", True))
+                if behaviour == "unreadable" and ch.choose(("end checks on no rows", index), ["pass", "fail"]) == "fail":
+                    # a check such as "DistinctCount >= 1" fails on the zero rows of a file that could not be read: the
+                    # file is still unreadable (exit code 3), not rejected
+                    interp_.raise_("cutplace.errors.CheckError", Opaque("str", True))
 
             return Obj(model.cls("cutplace.validio.Reader"), {"validate_rows": validate_rows, "close": close, "accepted_rows_count": 1,
                                                               "_cid": cid, "_is_closed": False},
